@@ -1834,3 +1834,90 @@ func checkAddrTypeFollowsBranch(c *Ctx, rule string) {
 	}
 	c.Floor(rule, "address-type lookups", n, 3)
 }
+
+// constCaseArms: for a function that switches on constants of the named type: constant name -> names of the functions
+// called in that arm (blocks dominated by the arm's body; `case A, B:` shares one body).
+func constCaseArms(fn *ssa.Function, typeName string) map[string]map[string]bool {
+	out := map[string]map[string]bool{}
+	for _, f := range Closures(fn) {
+		for _, b := range f.Blocks {
+			for si, succ := range b.Succs {
+				ef := edgeFactOf(b, si)
+				if ef == nil || ef.Kind != "true" {
+					continue
+				}
+				bo, ok := ef.V.(*ssa.BinOp)
+				if !ok || bo.Op != token.EQL {
+					continue
+				}
+				cst, ok := bo.Y.(*ssa.Const)
+				if !ok {
+					continue
+				}
+				nm, ok := cst.Type().(*types.Named)
+				if !ok || nm.Obj().Name() != typeName {
+					continue
+				}
+				name := valueDesc(cst)
+				if out[name] == nil {
+					out[name] = map[string]bool{}
+				}
+				for _, bb := range f.Blocks {
+					if succ.Dominates(bb) {
+						for _, ins := range bb.Instrs {
+							if call, ok := ins.(*ssa.Call); ok {
+								out[name][calleeShort(&call.Call)] = true
+							}
+						}
+					}
+				}
+			}
+		}
+	}
+	return out
+}
+
+// checkStripperCoversRowKinds (sibling agreement): the address-row reader dispatches every stored row kind to a
+// deserializer; deletePrivateKeys (conversion to watching-only) dispatches on the same kind to strip the secret slot.
+// Every row kind that the reader decodes with a deserializer the stripper uses for some kind has that layout — and that
+// secret slot — too, so the stripper must have an arm for it. (Taproot script rows share the witness-script layout; with
+// no arm of their own a secret tapscript stayed in the file of a watching-only wallet.)
+func checkStripperCoversRowKinds(c *Ctx, rule string) {
+	p := c.P
+	reader := p.Func("waddrmgr", "", "fetchAddressByHash")
+	strip := p.Func("waddrmgr", "", "deletePrivateKeys")
+	if reader == nil || strip == nil {
+		c.Unresolved(rule, "waddrmgr.fetchAddressByHash / deletePrivateKeys")
+		return
+	}
+	ra, sa := constCaseArms(reader, "addressType"), constCaseArms(strip, "addressType")
+	c.Floor(rule, "address row kinds decoded by the reader", len(ra), 4)
+	used := map[string]bool{}
+	for _, calls := range sa {
+		for n := range calls {
+			if strings.HasPrefix(n, "deserialize") {
+				used[n] = true
+			}
+		}
+	}
+	c.Floor(rule, "row deserializers used by deletePrivateKeys", len(used), 3)
+	var kinds []string
+	for k := range ra {
+		kinds = append(kinds, k)
+	}
+	sort.Strings(kinds)
+	for _, k := range kinds {
+		needs := ""
+		for n := range ra[k] {
+			if used[n] {
+				needs = n
+			}
+		}
+		if needs == "" {
+			continue
+		}
+		_, has := sa[k]
+		c.Check(rule, "secret-stripped-for-row-kind:"+strings.TrimPrefix(k, "waddrmgr."), strip.Pos(), has,
+			"address rows of kind "+k+" are decoded with "+needs+" (a layout whose secret slot deletePrivateKeys strips for another kind) but deletePrivateKeys has no case for them: their secret stays in the database after conversion to watching-only")
+	}
+}
